@@ -240,6 +240,18 @@ def run(ctx):
             cases.extend(group_cases(ctx, rng, edges, False))
     evaluate(ctx, cases, 'multi-root-around-owl:Thing')
     cross_variant_check(ctx, cases)
+    # owl:Thing MENTIONED in the edges while a single term is parentless (inside the domain of the theorems: `OwlOk`): as the top of the
+    # hierarchy with one child, with several children, and as an inner node / a leaf under another top
+    cases = []
+    for edges in ([('HP:1', 'owl:Thing'), ('HP:2', 'HP:1')],
+                  [('HP:1', 'owl:Thing'), ('HP:2', 'HP:1'), ('HP:3', 'HP:1'), ('HP:4', 'HP:2'), ('HP:4', 'HP:3')],
+                  [('HP:1', 'owl:Thing'), ('HP:2', 'owl:Thing'), ('HP:3', 'HP:1'), ('HP:3', 'HP:2')],
+                  [('zz:1', 'owl:Thing'), ('a:1', 'owl:Thing'), ('owl:Thing2', 'owl:Thing')],
+                  [('owl:Thing', 'HP:1'), ('HP:2', 'owl:Thing'), ('HP:3', 'HP:1')],
+                  [('owl:Thing', 'HP:1'), ('HP:2', 'HP:1')]):
+        cases.extend(group_cases(ctx, rng, edges, False))
+    evaluate(ctx, cases, 'owl:Thing-mentioned-single-parentless-term')
+    cross_variant_check(ctx, cases)
     # the excluded point of the theorems: owl:Thing itself is a parentless endpoint next to another parentless term
     edges = [('HP:2', 'owl:Thing'), ('HP:3', 'HP:1')]
     for f in gl.FACTORIES:
